@@ -319,6 +319,16 @@ def check_bdf(F, run, name):
                 it = nalg.NInterp(F, b, {"O": O})
                 it.fields["self.time"] = sym.S("time")
                 it.fields["self.dt"] = sym.S("dt")
+                # a hoisted `let next_time = (self.time + self.dt).real()` is fine as long as this function does not move time or dt itself
+                moves = [x for x in walk(b["body"]) if x.get("k") in ("Assign", "AssignOp") and place(x["l"]) in ("self.time", "self.dt")]
+                if not moves:
+                    from bsa import cfg
+                    for st_ in cfg.preceding_statements(b["body"], n):
+                        if st_.get("k") == "LetS" and "init" in st_ and "Mut)" not in st_["pat"].get("mode", ""):
+                            try:
+                                it.run_stmt(st_)
+                            except Exception:
+                                pass
                 try:
                     tv = it.ev(n["args"][1])
                     good = sym.is_zero(tv - (sym.S("time") + sym.S("dt")))
@@ -329,7 +339,7 @@ def check_bdf(F, run, name):
                               "the implicit residual is evaluated at time %s, the BDF formula needs t_{n+1} = time + dt" % tv,
                               sample="g(self, time+dt, ..)")
     if name == "BDF6Coefficients":
-        run.floor("R3.4-time", "BDFSolver", "residual evaluations in secant/jac_finite_diff", n_sites, 4)
+        run.floor("R3.4-time", "BDFSolver", "residual evaluations in secant/jac_finite_diff", n_sites, 2)
 
 
 def check_euler(F, run):
